@@ -10,7 +10,6 @@ import (
 	"go.riyazali.net/sqlite"
 
 	"github.com/jrhy/s3db"
-	"github.com/jrhy/s3db/kv"
 	"github.com/jrhy/s3db/writetime"
 )
 
@@ -24,7 +23,6 @@ func symSQLContext() *sqlite.VirtualTableContext    { panic("intrinsic") }
 func symSQLAggContext() *sqlite.AggregateContext    { panic("intrinsic") }
 func symSQLRegistered() any                         { panic("intrinsic") }
 func symSQLModule(name string) any                  { panic("intrinsic") }
-func symS3Register(c kv.S3Interface)                { panic("intrinsic") }
 func symSQLResult(c *sqlite.VirtualTableContext) (kind int, payload any, n int) {
 	panic("intrinsic")
 }
